@@ -1283,8 +1283,8 @@ _reset_real_wait(2)
 @contract('C19', 'parallel_safe.missing-entry.n2', [SWM + ':Swarm.parallel_safe', SWM + ':Swarm._process_args_dict', SWM + ':Swarm._thread_function_wrapper'],
           clause='parallel_safe returns only after every action has finished - "for all argument dictionaries": also when the dictionary lacks the entry of '
                  'a member (the call then ends with KeyError), no action that was started is still running when the call is over',
-          bounded='swarm size 2; the dictionary has the entry of the first member only; every schedule of the member threads',
-          thorough_only=True)       # RED on the unchanged tree (candidate finding, see the report): the started thread is never joined
+          bounded='swarm size 2; the dictionary has the entry of the first member only; every schedule of the member threads')
+# (was RED on the pinned tree: the started thread was never joined - repaired by fix commit 069d9ab; quick tier since then)
 def parallel_missing_entry(c):
     c.model_threads(SWM)
     swarm, uris, scfs = new_swarm(c, 2)
